@@ -1,7 +1,7 @@
 #!/bin/bash
 # confirm each seeded change: patch applies, suite passes with it, demo fails with it and passes without
 export GOFLAGS=-mod=mod GOPROXY=off GOSUMDB=off GOTOOLCHAIN=local
-for d in /tmp/mut_C*_out/m*; do
+for d in ${@:-/tmp/mut_C*_out/m*}; do
   pid=$(echo $d | sed 's|/tmp/mut_\(C[0-9]*\)_out/.*|\1|'); m=$(basename $d); wt=/tmp/mut_$pid
   [ -f $d/patch.diff ] || continue
   demo=$(ls $d/*_test.go | head -1); pkgdir=$(grep -o 'x/[a-z/]*\|types/compkey' $d/README.txt | head -1)
